@@ -530,9 +530,15 @@ fn worker(spec: &Spec, body: fn(&mut Ctx), tier: Tier, k: usize, n: usize, seed:
     }
     let r = guard(|| body(&mut ctx));
     if let Err(msg) = r {
-        // a panic that escaped the check body is a machinery failure
-        eprintln!("MACHINERY worker {} panicked outside a guarded call: {}", k, msg);
-        std::process::exit(2);
+        // A panic that escaped the check body: the harness could not process what the library handed back for
+        // the case in flight (an invalid String, inconsistent lengths, ...).  The enumeration is deterministic and
+        // the same inputs are processed without incident on a conforming library, so this is reported like a
+        // process fault, attributed to the case in flight (never on the unchanged tree, where it cannot occur
+        // without also failing the run).
+        let one_line: String = msg.chars().map(|c| if c.is_control() { ' ' } else { c }).take(300).collect();
+        eprintln!("HARNESSPANIC {}", one_line);
+        write_fault("HARNESS");
+        std::process::exit(3);
     }
     if let Some(p) = spec.probes {
         for (name, hits) in p() {
@@ -698,9 +704,13 @@ fn supervise(spec: &Spec, tier: Tier, seed: u64) -> i32 {
             incomplete = true;
             // a fault of the process under test?
             let mut fault = None;
+            let mut harness_msg = String::new();
             for line in err.lines() {
                 if let Some(rest) = line.strip_prefix("FAULT ") {
                     fault = Some(rest.to_string());
+                }
+                if let Some(rest) = line.strip_prefix("HARNESSPANIC ") {
+                    harness_msg = rest.to_string();
                 }
             }
             match fault {
@@ -720,7 +730,13 @@ fn supervise(spec: &Spec, tier: Tier, seed: u64) -> i32 {
                             }
                         }
                     }
-                    let what = if sig == "HANG" { "operation did not terminate (watchdog)" } else { "process fault while executing a case" };
+                    let what = if sig == "HANG" {
+                        "operation did not terminate (watchdog)"
+                    } else if sig == "HARNESS" {
+                        "the check could not process what the library returned for this case (the same inputs are processed without incident on a conforming library)"
+                    } else {
+                        "process fault while executing a case"
+                    };
                     m.viol_total += 1;
                     m.viols.push(Viol {
                         key: format!("fault:{}:{}:{}:{}", sig, space, outer, inner),
@@ -729,7 +745,7 @@ fn supervise(spec: &Spec, tier: Tier, seed: u64) -> i32 {
                         what: what.to_string(),
                         args: vec![format!("inner={}", inner)],
                         expected: "normal return or panic".to_string(),
-                        got: sig.to_string(),
+                        got: if sig == "HARNESS" { format!("HARNESS {}", harness_msg) } else { sig.to_string() },
                     });
                 }
                 None => {
